@@ -82,7 +82,9 @@ def gen(ctx, size, long_msgs=False):
         spki = bytes.fromhex('302a300506032b6570032100') + Ab
         ctx.add('sig.spki_der', spki.hex(), expect=['ok', Ab.hex()], cls='keypair:pkcs8')
         v2 = bytes.fromhex('3051020101300506032b657004220420') + seed + bytes.fromhex('812100') + Ab
-        ctx.add('sig.pkcs8_encode', seed.hex(), expect=[v2.hex(), spki.hex(), seed.hex(), Ab.hex()], cls='keypair:pkcs8')
+        kp_ = (seed + Ab).hex()
+        ctx.add('sig.pkcs8_encode', seed.hex(), expect=[v2.hex(), spki.hex(), seed.hex(), Ab.hex(), kp_, kp_, Ab.hex(), Ab.hex(),
+                                                        '1.3.101.112:true', '1.3.101.112:true', Ab.hex(), Ab.hex(), kp_], cls='keypair:pkcs8')
         import base64
 
         def pem(label, der):
